@@ -542,8 +542,8 @@ class PortNamespace(collections.abc.MutableMapping, Port):
         elif include is not None:
             type_check(include, Sequence)
 
-        if namespace_options is None:
-            namespace_options = {}
+        # The options are consumed below: work on a copy and leave the caller's dictionary as it is
+        namespace_options = {} if namespace_options is None else dict(namespace_options)
 
         # Overload mutable attributes of PortNamespace unless overridden by value in namespace_options
         for attr in dir(port_namespace):
